@@ -64,8 +64,10 @@ def apply_variant(sc, var):
         f = fns.get(ov["id"])
         if f is None:
             raise Undecided(f"variant {var.get('name')} names unknown fn id {ov['id']}")
+        for d in ov.get("drop", []):
+            f.pop(d, None)
         for k, v in ov.items():
-            if k == "id":
+            if k in ("id", "drop"):
                 continue
             if k == "closure":
                 cl = {c["ordinal"]: c for c in f.get("closure", [])}
